@@ -119,6 +119,7 @@ def install_c19(reg):
             "split_hard_unm": f"implies({_T} > 0, ({_P}[2] + {_P}[3]) / {_T} == {_P}[2] / {_T} + {_P}[3] / {_T})",
             "hard_plus_unm_within_2_points": f"implies({_T} > 0, -2 < 100 * (({_P}[2] + {_P}[3]) / {_T}) - (result[2] + result[3]) < 2)",
         },
+        rt_trace=True,      # the stand-in stubs quality_profile and records its result, so the clauses over it are evaluated at run time
         props=("C19",),
     )
     verdict = {
